@@ -1,7 +1,7 @@
 (* Properties/C04.v — Reported field offsets locate the field's bytes in the encoding.
    Only statements, each closed by `exact` of a lemma proved in Offsets/OffsetProofs.v. *)
 From FV Require Import Base.Bytes Base.U64 Codec.CodecModel Gen.Schemas Gen.TxConsts TxId.IdSpec
-     Offsets.OffsetSpec Offsets.OffsetModel Offsets.OffsetProofs.
+     Offsets.OffsetSpec Offsets.OffsetModel Offsets.OffsetProofs Offsets.OffsetDynamic.
 Local Open Scope list_scope.
 Open Scope N_scope.
 
@@ -80,24 +80,60 @@ Theorem C04_none_output :
 Proof. exact output_fn_none_iff. Qed.
 Print Assumptions C04_none_output.
 
-(* OPEN (not proved; executed on every correspondence case by Run/Offsets.v statement_holds /
-   check_off): the value-dependent offsets — script, script data, storage slots, proof set,
-   policies, inputs / outputs / witnesses and their elements, predicates and predicate data —
-   equal the specification's positions when nothing saturates, and the answers of a precomputed
-   transaction equal those computed without metadata. *)
-Definition C04_locates_dynamic_statement : Prop :=
+(* the value-dependent sections of the five chargeable kinds — policies (= body end), inputs,
+   outputs, witnesses: when the encoding is shorter than 2^64 bytes the reported offset is the
+   specification's position and the encoding there is the section's canonical bytes *)
+Theorem C04_locates_sections :
   forall (k : kind) (v : val) (f : tfn) (s : sel) (o : N),
-    typed (kind_ty k) v = true -> lenN (enc (kind_ty k) v) < U64 ->
-    tx_sel k f = Some s -> tx_offset {| o_kind := k; o_val := v; o_meta := None |} f = Some o ->
-    exists bs, locate_in (kind_ty k) v s = Some (o, bs).
-Definition C04_locates_elements_statement : Prop :=
+    k <> KMint -> typed (kind_ty k) v = true -> lenN (enc (kind_ty k) v) <= u64_max ->
+    section_fn f = true -> tx_sel k f = Some s ->
+    tx_offset {| o_kind := k; o_val := v; o_meta := None |} f = Some o ->
+    exists bs, locate_in (kind_ty k) v s = Some (o, bs) /\ slice (enc (kind_ty k) v) o (lenN bs) = bs.
+Proof. exact sections_locate. Qed.
+Print Assumptions C04_locates_sections.
+
+(* each input, output and witness: Some o exactly for the indices in range, and then o is where the
+   element's full canonical encoding is *)
+Theorem C04_locates_elements :
+  forall (k : kind) (v : val) (f : atfn) (idx : N),
+    k <> KMint -> typed (kind_ty k) v = true -> lenN (enc (kind_ty k) v) <= u64_max -> element_fn f = true ->
+    match tx_offset_at {| o_kind := k; o_val := v; o_meta := None |} f idx with
+    | Some o => exists i s bs, idx = N.of_nat i /\ at_sel k f i = Some s /\
+                               locate_in (kind_ty k) v s = Some (o, bs) /\ slice (enc (kind_ty k) v) o (lenN bs) = bs
+    | None => forall i s, idx = N.of_nat i -> at_sel k f i = Some s -> locate_in (kind_ty k) v s = None
+    end.
+Proof. exact elements_locate. Qed.
+Print Assumptions C04_locates_elements.
+
+(* script and script data *)
+Theorem C04_locates_script :
+  forall (v : val) (f : tfn) (s : sel) (o : N),
+    typed S_Script v = true -> lenN (enc S_Script v) <= u64_max ->
+    (f = ScriptOffset \/ f = ScriptDataOffset) -> tx_sel KScript f = Some s ->
+    tx_offset {| o_kind := KScript; o_val := v; o_meta := None |} f = Some o ->
+    exists bs, locate_in S_Script v s = Some (o, bs) /\ slice (enc S_Script v) o (lenN bs) = bs.
+Proof. exact script_offsets_locate. Qed.
+Print Assumptions C04_locates_script.
+
+(* OPEN (not proved; executed on every correspondence case by Run/Offsets.v statement_holds /
+   check_off, and checked on the real code by the oracle): storage slots and proof entries, the
+   value-dependent offsets inside an input (data, predicate, predicate data) and
+   inputs_predicate_offset_at with its padded length; answers of a precomputed transaction =
+   answers computed without metadata. *)
+Definition C04_locates_body_vectors_statement : Prop :=
   forall (k : kind) (v : val) (f : atfn) (i : nat) (s : sel) (o : N),
-    typed (kind_ty k) v = true -> lenN (enc (kind_ty k) v) < U64 ->
+    typed (kind_ty k) v = true -> lenN (enc (kind_ty k) v) <= u64_max ->
+    (f = StorageSlotsOffsetAt \/ f = ProofSetOffsetAt) ->
     at_sel k f i = Some s -> tx_offset_at {| o_kind := k; o_val := v; o_meta := None |} f (N.of_nat i) = Some o ->
     exists bs, locate_in (kind_ty k) v s = Some (o, bs).
+Definition C04_locates_input_dynamic_statement : Prop :=
+  forall (f : infn) (j : nat) (x : val) (n : String.string) (o : N),
+    (j < 7)%nat -> typed (input_comp j) x = true -> lenN (enc S_Input (VE j [x])) <= u64_max ->
+    in_field_of f j = Some (n, PDynamic) -> input_fn f (VE j [x]) = Some o ->
+    exists s bs, in_sel f j = Some s /\ locate_in S_Input (VE j [x]) s = Some (o, bs).
 Definition C04_predicate_padded_statement : Prop :=
   forall (k : kind) (v : val) (i : nat) (o len : N),
-    typed (kind_ty k) v = true -> lenN (enc (kind_ty k) v) < U64 ->
+    typed (kind_ty k) v = true -> lenN (enc (kind_ty k) v) <= u64_max ->
     tx_predicate_offset_at {| o_kind := k; o_val := v; o_meta := None |} (N.of_nat i) = Some (o, len) ->
     exists j bs s, pred_sel i j = Some s /\ locate_in (kind_ty k) v s = Some (o, bs) /\ len = lenN bs.
 Definition C04_cached_statement : Prop :=
